@@ -271,9 +271,20 @@ class Real(object):
             return
         raise ValueError(k)
 
+    def prevalidate(self, p):
+        """construct every db_session(**options) of the program up front: option sets the constructor refuses
+        (same class in both lists, ddl with retry) are not part of the model and the case is skipped"""
+        if isinstance(p, dict):
+            if 'o' in p and p.get('k') in ('with', 'call', 'iter'): self.opts(p['o'])
+            for v in p.values(): self.prevalidate(v)
+        elif isinstance(p, list):
+            for v in p: self.prevalidate(v)
+
     def execute(self, case):
         """run one top-level program from the clean state; returns the observation dict (same shape as the model's reply)"""
         self.reset()
+        try: self.prevalidate(case['prog'])
+        except InvalidConfig: return None
         self.fail = [x for x in case.get('env', {}).get('commit_fail', [])]
         out = 'ret'
         try:
